@@ -252,7 +252,7 @@ impl Property for C02 {
         ]
     }
     fn random_cases(&self, tier: Tier) -> u64 {
-        tier.pick(64_000, 4_000_000)
+        tier.pick(300_000, 6_000_000)
     }
     fn exhaustive_note(&self, _tier: Tier) -> Option<String> {
         Some(format!("discard matrix: {} programs (construct kind x position x frame kind), enumerated completely; the random campaign is not exhaustive", matrix().len()))
